@@ -229,7 +229,7 @@ def Small (r : Record) : Prop :=
   r.length < 2 ^ 63 ∧ r.start < 2 ^ 63 ∧ r.basesPerLine < 2 ^ 63 ∧ r.bytesPerLine < 2 ^ 63
 
 theorem parseRecord_lineOf (seen : List RawRecord) (r : Record) (hs : Small r)
-    (hnew : ∀ x ∈ seen, x.name ≠ r.name) :
+    (hv : r.toRaw.isValid = true) (hnew : ∀ x ∈ seen, x.name ≠ r.name) :
     parseRecord seen [r.name, showNat r.length, showNat r.start, showNat r.basesPerLine,
       showNat r.bytesPerLine] = .ok r.toRaw := by
   unfold parseRecord
@@ -237,22 +237,27 @@ theorem parseRecord_lineOf (seen : List RawRecord) (r : Record) (hs : Small r)
     simp only [List.any_eq_false, beq_iff_eq]; exact hnew
   simp only [this, Bool.false_eq_true, if_false, readInt_showNat _ hs.1, readInt_showNat _ hs.2.1,
     readInt_showNat _ hs.2.2.1, readInt_showNat _ hs.2.2.2]
+  have hv' : (RawRecord.mk r.name (r.length : Int) (r.start : Int) (r.basesPerLine : Int)
+      (r.bytesPerLine : Int)).isValid = true := hv
+  simp only [hv', if_true]
   rfl
 
 theorem readLines_lines (ls : List Record) :
     ∀ (seen : List RawRecord), (∀ r ∈ ls, NameOK r.name) → (∀ r ∈ ls, Small r) →
+      (∀ r ∈ ls, r.toRaw.isValid = true) →
       (ls.map (·.name)).Nodup → (∀ r ∈ ls, ∀ x ∈ seen, x.name ≠ r.name) →
       readLines seen (ls.map lineOf) = .ok (seen.reverse ++ ls.map Record.toRaw) := by
   induction ls with
-  | nil => intro seen _ _ _ _; simp [readLines]
+  | nil => intro seen _ _ _ _ _; simp [readLines]
   | cons r rs ih =>
-    intro seen hn hs hd hnew
+    intro seen hn hs hv hd hnew
     simp only [List.map_cons, readLines, csvFields_lineOf r (hn r List.mem_cons_self)]
-    rw [parseRecord_lineOf seen r (hs r List.mem_cons_self) (hnew r List.mem_cons_self)]
+    rw [parseRecord_lineOf seen r (hs r List.mem_cons_self) (hv r List.mem_cons_self)
+      (hnew r List.mem_cons_self)]
     simp only
     simp only [List.map_cons, List.nodup_cons, List.mem_map, not_exists, not_and] at hd
     rw [ih (r.toRaw :: seen) (fun x hx => hn x (List.mem_cons_of_mem _ hx))
-      (fun x hx => hs x (List.mem_cons_of_mem _ hx)) hd.2]
+      (fun x hx => hs x (List.mem_cons_of_mem _ hx)) (fun x hx => hv x (List.mem_cons_of_mem _ hx)) hd.2]
     · simp
     · intro x hx y hy
       rcases List.mem_cons.mp hy with rfl | hy
@@ -294,11 +299,12 @@ theorem sortByStart_sorted (l : List Record) (h : l.Pairwise (fun a b => a.start
       simp only [insertByStart, h.1 y List.mem_cons_self, if_true]
 
 /-- A representable index: what a Go `Index` built by this package always satisfies, apart from the
-double quote. -/
+double quote; `valid` is the record check `ReadFrom` performs (`Record.isValid`). -/
 structure IndexOK (idx : Index) : Prop where
   nodup : (idx.map (·.name)).Nodup
   names : ∀ r ∈ idx, NameOK r.name
   small : ∀ r ∈ idx, Small r
+  valid : ∀ r ∈ idx, r.toRaw.isValid = true
 
 theorem readFrom_writeTo (idx : Index) (h : IndexOK idx) :
     readFrom (writeTo idx) = .ok ((sortByStart idx).map Record.toRaw) := by
@@ -306,6 +312,7 @@ theorem readFrom_writeTo (idx : Index) (h : IndexOK idx) :
   unfold readFrom writeTo
   rw [csvLines_writeTo _ (fun r hr => h.names r (hp.mem_iff.mp hr))]
   rw [readLines_lines _ [] (fun r hr => h.names r (hp.mem_iff.mp hr)) (fun r hr => h.small r (hp.mem_iff.mp hr))
+    (fun r hr => h.valid r (hp.mem_iff.mp hr))
     ((hp.map (·.name)).nodup_iff.mpr h.nodup) (by intro _ _ x hx; simp at hx)]
   simp
 
